@@ -49,10 +49,20 @@ def cfl_list(a):
 
 # ------------------------------------------------------------------ running the implementation
 def build_est_inputs(spec):
+    """x / rxx arrays of an estimator spec.  spec["variant"]: plain | strided (non-contiguous view) |
+    int (integer dtype signal) | kw (keyword call) — the values are the same in every form."""
+    var = spec.get("variant", "plain")
     x = None
     if spec.get("x") is not None:
         xs = [uhxc(p) for p in spec["x"]]
         x = np.array(xs, dtype=complex) if spec["complex"] else np.array([z.real for z in xs], dtype=float)
+        if var == "int":
+            x = np.array([int(round(z.real)) for z in xs], dtype=np.int64)
+        elif var == "strided":
+            buf = np.zeros(2 * len(x) + 1, dtype=x.dtype)
+            buf[1::2] = x
+            buf[0::2] = 12345.0
+            x = buf[1::2]
     rxx = None
     if spec.get("rxx") is not None:
         r = [uhxc(p) for p in spec["rxx"]]
@@ -65,6 +75,10 @@ def build_est_inputs(spec):
             rxx = np.array([int(round(z.real)) for z in r], dtype=np.int64)
         else:
             raise ValueError(dt)
+        if var == "strided":
+            buf = np.zeros(2 * len(rxx), dtype=rxx.dtype)
+            buf[0::2] = rxx
+            rxx = buf[0::2]
     return x, rxx
 
 
@@ -83,7 +97,10 @@ def run_est(spec):
     obs["R"] = [hxc(z) for z in np.asarray(R, dtype=complex)]
     for name, fn in (("ld", tsa.AR_est_LD), ("yw", tsa.AR_est_YW)):
         try:
-            ak, s = fn(x, order, rxx)
+            if spec.get("variant") == "kw":
+                ak, s = fn(x=x, order=order, rxx=rxx)
+            else:
+                ak, s = fn(x, order, rxx)
             ak = np.asarray(ak)
             obs[name] = {"ak": [hxc(z) for z in ak.astype(complex)], "sigma": hx(np.real(s)),
                          "dtype": str(ak.dtype), "sigma_imag": hx(np.imag(s))}
@@ -281,6 +298,13 @@ def est_cases(spec, obs):
     R = np.array([uhxc(q) for q in obs["R"]])
     if len(R) < p + 1 or not np.all(np.isfinite(R)) or R[0].real == 0:
         return out
+    if spec.get("tie_autocorr") and spec.get("x") is not None and spec.get("rxx") is None:
+        # the sequence AR_est_* get from utils.autocorr, against the lagged-sum contract (small-integer data)
+        x, _ = build_est_inputs(spec)
+        out.append(Case("(KAC %s %s %s)" % (cfl_list(x), nlit(p), cfl_list(R)), {"spec": spec, "which": "autocorr"},
+                        "AC/%s/N%s" % ("complex" if spec["complex"] else "real", "<=130" if len(x) <= 130 else ">130")))
+    if spec.get("oracle_only"):
+        return out
     cond = cond_of(R, p)
     cheap = spec.get("rxx_kind") in ("supplied-short", "supplied-int-dtype")
     fwd = cond < 1e8 and (p <= 4 or (cheap and p <= 6))     # exact evaluation of the whole loop is costly for high orders
@@ -316,7 +340,7 @@ def est_cases(spec, obs):
 
 
 def psd_case(spec, obs):
-    if "err" in obs:
+    if "err" in obs or spec.get("oracle_only"):
         return None
     sigma = uhx(spec["sigma"])
     s = sigma ** 0.5
@@ -330,7 +354,7 @@ def psd_case(spec, obs):
 
 
 def gen_case(spec, obs):
-    if "err" in obs:
+    if "err" in obs or spec.get("oracle_only"):
         return None
     sigma = uhx(spec["sigma"])
     s = sigma ** 0.5
@@ -427,6 +451,48 @@ def exact_acov(a, sigma2, nlags):
     return R[:nlags + 1]
 
 
+def int_signal(rng, N, cplx):
+    """coloured small-integer signal (moving sum of integer noise): sums of products are exact in float64"""
+    nprng = np.random.RandomState(rng.randint(0, 2 ** 31 - 1))
+    e = nprng.randint(-9, 10, size=N + 2).astype(float)
+    x = e[2:] + 2 * e[1:-1] + e[:-2]
+    if cplx:
+        f = nprng.randint(-9, 10, size=N + 2).astype(float)
+        x = x + 1j * (f[2:] - f[:-2])
+    if not np.any(x):
+        x[0] = 1
+    return x
+
+
+def gen_length_sweep(ctx):
+    """the quantifier's size range for signal-based calls: EVERY length 16..130 once per run, plus lengths up to
+    4096 around powers of two, 5-smooth numbers, primes and seeded draws; orders up to min(16, N/4); real and
+    complex.  Checked by the oracle against directly summed autocorrelations (independent of nitime's FFT route);
+    a few of them also tie utils.autocorr inside Coq (KAC)."""
+    rng = ctx.rng
+    out = []
+    big = [1000, 1023, 1024, 1025, 1080, 1125, 1215, 1999, 2025, 2047, 2048, 2049, 3125, 3645, 4000, 4050, 4093, 4095, 4096]
+    big += [rng.randint(131, 4096) for _ in range(ctx.scale(12, 60))]
+    lengths = list(range(16, 131)) + big
+    tie = set(rng.sample(range(16, 131), ctx.scale(10, 40)) + [21, 37, 61, 113] + rng.sample(big, ctx.scale(2, 8)))
+    for N in lengths:
+        for cplx in ([False, True] if (N % 3 == 0 or N > 130) else [False]):
+            integer = rng.random() < 0.6 or N in tie
+            if integer:
+                x = int_signal(rng, N, cplx)
+            else:
+                x = gen_signal(rng, N, cplx, rng.choice([0.6, 0.9, 0.97])) * 2.0 ** rng.choice([0, 0, -60, 40])
+            p = rng.randint(1, max(1, min(16, N // 4)))
+            s = {"kind": "est", "complex": cplx, "order": p, "x": [hxc(z) for z in x], "N": N, "rxx": None,
+                 "rxx_kind": "computed-sweep", "pd": True, "oracle_only": True,
+                 "variant": "int" if (integer and not cplx and rng.random() < 0.3) else rng.choice(["plain", "strided", "kw"])}
+            if N in tie and integer:
+                s["tie_autocorr"] = True
+                s["order"] = min(p, 8)
+            out.append(s)
+    return out
+
+
 def gen_est_specs(ctx):
     rng = ctx.rng
     specs = []
@@ -436,9 +502,12 @@ def gen_est_specs(ctx):
         N = rng.choice([16, 17, 24, 31, 32, 50, 64, 100, 128] + ([255, 256, 512] if ctx.quick else [255, 256, 1000, 1024, 2048, 4096]))
         rmax = rng.choice([0.6, 0.8, 0.9, 0.97, 0.995])
         x = gen_signal(rng, N, cplx, rmax)
+        sexp = rng.choice([0, 0, 0, -60, -31, -7, 13, 40])
+        x = x * 2.0 ** sexp                      # magnitude range: exact power-of-two scaling
         pmax = max(1, min(8 if ctx.quick else 16, N // 4))
         p = rng.randint(1, pmax)
-        base = {"kind": "est", "complex": cplx, "order": p, "x": [hxc(z) for z in x], "N": N}
+        base = {"kind": "est", "complex": cplx, "order": p, "x": [hxc(z) for z in x], "N": N, "scale_exp": sexp,
+                "variant": rng.choice(["plain", "plain", "strided", "kw"])}
         r = rng.random()
         if r < 0.5:
             s = dict(base, rxx=None, rxx_kind="computed", pd=True)
@@ -459,12 +528,13 @@ def gen_est_specs(ctx):
             rx = utils.autocov(x)
             s = dict(base, rxx=[hxc(z) for z in rx[:p + 1]], rxx_dtype="complex" if cplx else "float", rxx_kind="supplied-autocov", pd=True)
         specs.append(s)
+    specs += gen_length_sweep(ctx)
     # exact autocovariance of known stable processes (exact recovery)
     for i in range(ctx.scale(30, 150)):
         cplx = rng.random() < 0.5
         p = rng.randint(1, 6 if ctx.quick else 10)
         a = stable_coefs(rng, p, cplx, rng.choice([0.5, 0.7, 0.85]))
-        sig2 = rng.choice([0.5, 1.0, 2.0, 3.7])
+        sig2 = rng.choice([0.5, 1.0, 2.0, 3.7]) * 2.0 ** rng.choice([0, 0, -60, 40, 17])
         R = exact_acov(a, sig2, p + 1)
         if not cplx:
             R = R.real
@@ -495,8 +565,16 @@ def gen_psd_specs(ctx):
         p = rng.randint(1, 6 if ctx.quick else 8)
         a = stable_coefs(rng, p, cplx, rng.choice([0.5, 0.8, 0.95]))
         nf = rng.choice([1, 2, 3, 4, 5, 6, 7, 8, 9, 12, 13] + ([] if ctx.quick else [16, 17, 31, 32, 33, 64]))
-        out.append({"kind": "psd", "complex": cplx, "ak": [hxc(z) for z in a], "sigma": hx(rng.choice([0.25, 1.0, 2.0, 0.731, 5.3])),
+        out.append({"kind": "psd", "complex": cplx, "ak": [hxc(z) for z in a],
+                    "sigma": hx(rng.choice([0.25, 1.0, 2.0, 0.731, 5.3]) * 2.0 ** rng.choice([0, 0, 0, -60, 40, -13])),
                     "n_freqs": nf, "sides": rng.choice(["onesided", "twosided"])})
+    # the documented default and large grids of both parities, orders up to 16: oracle only
+    for nf in [511, 512, 1023, 1024, 1025, 2048, 4097] + [rng.randint(18, 5000) for _ in range(ctx.scale(4, 20))]:
+        for sides in ("onesided", "twosided"):
+            cplx = rng.random() < 0.5
+            a = stable_coefs(rng, rng.randint(1, 16), cplx, rng.choice([0.5, 0.8, 0.95]))
+            out.append({"kind": "psd", "complex": cplx, "ak": [hxc(z) for z in a], "sigma": hx(rng.choice([1.0, 0.731]) * 2.0 ** rng.choice([0, -60, 40])),
+                        "n_freqs": nf, "sides": sides, "oracle_only": True})
     return out
 
 
@@ -510,14 +588,20 @@ def gen_gen_specs(ctx):
         a = np.array([shortc(z, 20, cplx) for z in a])
         drop = rng.choice([0, 0, 1, 2, 3, 5, 8])
         n = rng.randint(p + 2, 24 if ctx.quick else 48)
-        sigma = rng.choice([1.0, 2.0, 0.5, 0.37, 4.0])
+        sigma = rng.choice([1.0, 2.0, 0.5, 0.37, 4.0]) * 4.0 ** rng.choice([0, 0, 0, -30, 20])
         s = {"kind": "gen", "complex": cplx, "coefs": [hxc(z) for z in a], "sigma": hx(sigma), "drop": drop}
         if rng.random() < 0.6:
-            v = [shortc(rng.gauss(0, 1) + (1j * rng.gauss(0, 1) if cplx else 0), 24, cplx) for _ in range(n + drop)]
+            vsc = 2.0 ** rng.choice([0, 0, 0, -60, 40])
+            v = [shortc(rng.gauss(0, 1) + (1j * rng.gauss(0, 1) if cplx else 0), 24, cplx) * vsc for _ in range(n + drop)]
             s.update(v=[hxc(z) for z in v], N=n)
         else:
             s.update(v=None, N=n, seed=rng.randint(0, 2 ** 31 - 1))
         out.append(s)
+    # long runs (default N = 512 and beyond): oracle only
+    for N in (512, 1025, 4096):
+        a = stable_coefs(rng, rng.randint(1, 8), False, 0.9)
+        out.append({"kind": "gen", "complex": False, "coefs": [hxc(z) for z in a], "sigma": hx(2.0), "drop": rng.choice([0, 100]),
+                    "v": None, "N": N, "seed": rng.randint(0, 2 ** 31 - 1), "oracle_only": True})
     return out
 
 
@@ -525,12 +609,21 @@ RUN = {"est": run_est, "psd": run_psd, "gen": run_gen}
 ORACLE = {"est": oracle_est, "psd": oracle_psd, "gen": oracle_gen}
 
 
+def light(spec):
+    """spec for the evidence samples: long arrays abbreviated (violation replay files keep the full input)"""
+    return {k: (v if not isinstance(v, list) or len(v) <= 40 else {"len": len(v), "head": v[:4]}) for k, v in spec.items()}
+
+
 def cases_of(spec, obs):
     k = spec["kind"]
     if k == "est":
-        return est_cases(spec, obs)
-    c = psd_case(spec, obs) if k == "psd" else gen_case(spec, obs)
-    return [c] if c is not None else []
+        cs = est_cases(spec, obs)
+    else:
+        c = psd_case(spec, obs) if k == "psd" else gen_case(spec, obs)
+        cs = [c] if c is not None else []
+    for c in cs:
+        c.replay = dict(c.replay, spec=light(spec))
+    return cs
 
 
 def corpus_specs():
@@ -575,13 +668,20 @@ def run(ctx):
                 nfail += 1
     ctx.extra["model_impl_disagreements"] = len(bad)
     ctx.extra["oracle_checked_inputs"] = len(results)
-    ctx.extra["rule"] = ("seeded generator: real/complex AR-coloured signals (pole radius 0.6..0.995, N 16..512 quick / ..4096 thorough, "
+    ctx.extra["oracle_only_inputs"] = sum(1 for sp, _ in results if sp.get("oracle_only"))
+    ctx.extra["signal_lengths_checked_by_oracle"] = "every N in 16..130 + %d lengths in 131..4096 (powers of two +-1, 5-smooth, primes, seeded)" % len(
+        {sp["N"] for sp, _ in results if sp["kind"] == "est" and sp.get("N", 0) > 130})
+    ctx.extra["rule"] = ("oracle (independent: directly summed autocorrelation) on every signal length 16..130 and ~30 lengths up to 4096, "
+                         "orders up to min(16, N/4), data scaled by 2^-60..2^40, strided / integer-dtype / keyword-call variants, "
+                         "n_freqs up to 5000, generator runs up to 4096; Coq cases: utils.autocorr tied to the lagged-sum contract on "
+                         "small-integer signals (KAC), real/complex AR-coloured signals (pole radius 0.6..0.995, N 16..512 quick / ..4096 thorough, "
                          "some not zero-mean), orders 1..8 (..16 thorough), autocorrelation computed / supplied (biased, unbiased, autocov, "
                          "exact autocovariance of a known stable process, short integer-valued sequences incl. integer dtype); AR_psd for "
                          "n_freqs of both parities and both sides; ar_generator with supplied and drawn innovations, drop_transients 0..8. "
                          "A case is one call compared inside Coq; all are non-trivial (distinct by hash of the Coq term).")
     return ctx.finish(
-        trusted=["utils.autocorr (FFT convolution) is taken as data here (property C20); the oracle recomputes it by direct summation",
+        trusted=["utils.autocorr (FFT convolution) is tied to its lagged-sum contract inside Coq on ~15 small-integer signals per run (KAC) "
+                 "and otherwise taken as data (property C20); the oracle recomputes it by direct summation for every signal-based call",
                  "scipy.linalg.solve / toeplitz, scipy.signal.freqz / lfilter, numpy sqrt and exp: library kernels; their outputs are "
                  "data of the cases and their contracts (Toeplitz residual, s*s = sigma, direct-form recursion) are checked inside Coq per case",
                  "per-case forward tolerance (<= 1e-4, chosen from the condition number by the harness) when comparing float64 results "
